@@ -408,7 +408,7 @@ func (f *mfile) wantMD() string {
 	return fmt.Sprintf("%s %x %x %x %s", map[string]string{"png": "PNG", "jpeg": "JPEG", "webp": "WebP"}[f.Fmt], f.W, f.H, f.Bits, f.ICC)
 }
 
-var ancTypes = []string{"tEXt", "gAMA", "cHRM", "pHYs", "sBIT", "bKGD", "tIME", "zTXt", "iTXt", "sRGB", "eXIf", "prVt", "vpAg"}
+var ancTypes = []string{"tEXt", "gAMA", "cHRM", "pHYs", "sBIT", "bKGD", "tIME", "zTXt", "iTXt", "sRGB", "eXIf", "prVt", "vpAg", "tRNS", "hIST", "sPLT"}
 
 var chunkSizes = []int{0, 1, 7, 12, 100, 4087, 4088, 4089, 4095, 4096, 4097, 4105, 8192, 65533, 70000}
 
@@ -425,6 +425,7 @@ type pngOpt struct {
 	damage    string // "", "zlib-corrupt", "zlib-truncated", "bad-method"
 	body      int    // IDAT payload size
 	smallAnc  bool
+	bigAnc    int // when > 0: every ancillary chunk after iCCP has this many bytes
 	ihdrExtra int // extra bytes appended to IHDR data (length > 13)
 }
 
@@ -488,6 +489,9 @@ func buildPNG(rng *rand.Rand, o pngOpt) *mfile {
 			sz := chunkSizes[rng.Intn(len(chunkSizes))]
 			if o.smallAnc {
 				sz = rng.Intn(40)
+			}
+			if o.bigAnc > 0 && iccDone {
+				sz = o.bigAnc
 			}
 			b = append(b, pngChunk(ancTypes[rng.Intn(len(ancTypes))], randBytes(rng, sz))...)
 		}
